@@ -60,6 +60,7 @@ type c10peer struct {
 	lastClean  bool   // previous exchange completed cleanly (full keep-alive response queued, no fault)
 	lastID     string // request id of the previous exchange
 	dead       bool   // server closed / reset
+	closeBy    string // request id of the exchange that announced Connection: close (in the request or the response)
 	pendingRst bool   // reset as soon as what was queued has been delivered
 	acceptAt   time.Time
 }
@@ -197,6 +198,10 @@ func RunC10(ep *core.Episode) {
 			who = cl.id
 			cl.conns[id] = true
 		}
+		if pr := peers[id]; pr != nil && pr.closeBy != "" && cl != nil && cl.id != pr.closeBy {
+			ep.Fail("C10.reuse", "connection k%d is used by call %s after its exchange for %s announced Connection: close", id, cl.id, pr.closeBy)
+			return
+		}
 		lg := connLog[id]
 		if len(lg) == 0 || lg[len(lg)-1] != who {
 			connLog[id] = append(lg, who)
@@ -320,6 +325,7 @@ func RunC10(ep *core.Episode) {
 					case 0, 1:
 						p.B.Send(full, 0)
 						if closeHdr {
+							pr.closeBy = id
 							p.B.Close()
 							pr.dead = true
 							if kind == 1 {
@@ -534,6 +540,12 @@ func RunC10(ep *core.Episode) {
 					}
 				} else if errors.Is(err, errs.ErrBadPoolConn) {
 					ep.Probe("bad-pool-conn-returned")
+				}
+				// an episode without any injected fault, a call without any timeout and an uncancelled context:
+				// the only legitimate failure is a saturated pool
+				if err != nil && !faulty && cl.timeoutT == 0 && readT == 0 && dialT == 0 && !cl.cancelled && cr == nil &&
+					!errors.Is(err, errs.ErrNoFreeConns) && ep.Param("faults") != "off" {
+					ep.Fail("C10.match", "call %s (no timeout, no fault injected anywhere in this episode) failed with %v", cl.id, err)
 				}
 				hmu.Lock()
 				cl.returned = true
